@@ -17,6 +17,11 @@ use crate::engine::{engine_for, Engine, COMMON_ASSUMPTIONS};
 
 pub const DEFAULT_FUEL: u64 = 1 << 22;
 
+/// hangs pinned on individual runs so far in this check / chunks given up after that
+static HANGS: AtomicUsize = AtomicUsize::new(0);
+static SKIPPED_CHUNKS: AtomicUsize = AtomicUsize::new(0);
+const MAX_HANGS_PINNED: usize = 3;
+
 /// allocation seam: largest single request a worker serves
 pub fn alloc_cap_for(prop: &str) -> usize {
     match prop {
@@ -307,7 +312,10 @@ fn run_chunk(prop: &str, thorough: bool, seed: u64, from: u64, to: u64) -> Chunk
         to.to_string(),
         "fast".into(),
     ];
-    if let Some(out) = run_child(&args, None, Duration::from_secs(600)) {
+    let fast_limit = if HANGS.load(Ordering::SeqCst) >= MAX_HANGS_PINNED { 25 } else { 90 };
+    let fast = run_child(&args, None, Duration::from_secs(fast_limit));
+    let fast_timed_out = fast.as_ref().map(|o| o.timed_out).unwrap_or(false);
+    if let Some(out) = fast {
         if out.status.success() {
             for l in out.stdout.lines() {
                 if let Some(rest) = l.strip_prefix("R ") {
@@ -320,6 +328,12 @@ fn run_chunk(prop: &str, thorough: bool, seed: u64, from: u64, to: u64) -> Chunk
     }
     // slow path
     let mut total = ChunkResult { from, to, ..Default::default() };
+    if fast_timed_out && HANGS.load(Ordering::SeqCst) >= MAX_HANGS_PINNED {
+        // several hangs have already been pinned on individual runs (and will be reported); do not
+        // spend a watchdog period on every further hanging run of this check
+        SKIPPED_CHUNKS.fetch_add(1, Ordering::SeqCst);
+        return total;
+    }
     let mut next = from;
     let mut guard = 0;
     while next < to {
@@ -331,6 +345,10 @@ fn run_chunk(prop: &str, thorough: bool, seed: u64, from: u64, to: u64) -> Chunk
         let (done_to, crashed) = run_careful(prop, thorough, seed, next, to, &mut total);
         next = done_to;
         if !crashed {
+            break;
+        }
+        if HANGS.load(Ordering::SeqCst) >= MAX_HANGS_PINNED && fast_timed_out {
+            SKIPPED_CHUNKS.fetch_add(1, Ordering::SeqCst);
             break;
         }
     }
@@ -394,7 +412,7 @@ fn run_careful(prop: &str, thorough: bool, seed: u64, from: u64, to: u64, total:
             Ok(Some(st)) => break Some(st),
             Ok(None) => {
                 let since = state.lock().unwrap().1.elapsed();
-                if since > Duration::from_secs(60) {
+                if since > Duration::from_secs(12) {
                     timed_out = true;
                     let _ = child.kill();
                     break child.wait().ok();
@@ -421,6 +439,9 @@ fn run_careful(prop: &str, thorough: bool, seed: u64, from: u64, to: u64, total:
                 Some(st) => classify_death(&st, &stderr, timed_out),
                 None => "unknown".to_string(),
             };
+            if timed_out {
+                HANGS.fetch_add(1, Ordering::SeqCst);
+            }
             total.runs += 1;
             total.nontrivial_runs += 1;
             total.devs.push((
@@ -496,7 +517,7 @@ fn is_crash_sig(sig: &str) -> bool {
 
 fn reproduces(eng: &dyn Engine, prop: &str, sc: &Value, sig: &str, in_child: bool) -> bool {
     if in_child {
-        match eval_in_child(prop, sc, Duration::from_secs(90)) {
+        match eval_in_child(prop, sc, Duration::from_secs(20)) {
             Ok((devs, _)) => devs.iter().any(|d| d.sig == sig),
             Err(_) => false,
         }
@@ -510,7 +531,7 @@ pub fn minimise(eng: &dyn Engine, prop: &str, sc: &Value, sig: &str) -> (Value, 
     let in_child = is_crash_sig(sig);
     let mut cur = sc.clone();
     let mut evals: u64 = 0;
-    let max_evals: u64 = if in_child { 120 } else { 3000 };
+    let max_evals: u64 = if in_child { if sig.ends_with("hang_watchdog") { 12 } else { 120 } } else { 3000 };
     let deadline = Instant::now() + Duration::from_secs(if in_child { 120 } else { 45 });
     loop {
         let mut progressed = false;
@@ -733,7 +754,16 @@ pub fn check_main(prop: &str, thorough: bool, seed: u64) -> i32 {
     let mut violation_lines: Vec<String> = Vec::new();
     let mut unknown_sorted: Vec<(&String, &Vec<(u64, Deviation)>)> = unknown.iter().collect();
     unknown_sorted.sort_by(|a, b| b.1.len().cmp(&a.1.len()).then(a.0.cmp(b.0)));
+    let mut hang_sigs = 0;
     for (n, (sig, occ)) in unknown_sorted.into_iter().enumerate() {
+        if sig.ends_with("hang_watchdog") {
+            hang_sigs += 1;
+            if hang_sigs > 2 {
+                println!("axsim: further hang signature not minimised: {sig} ({} runs)", occ.len());
+                violations += 1;
+                continue;
+            }
+        }
         if n >= std::env::var("VERIF_MAX_MINIMISE").ok().and_then(|s| s.parse().ok()).unwrap_or(6usize) {
             println!("axsim: further distinct signatures not minimised: {sig} ({} runs)", occ.len());
             violations += 1;
@@ -749,7 +779,7 @@ pub fn check_main(prop: &str, thorough: bool, seed: u64) -> i32 {
         }
         let sc = eng.gen(prop, thorough, seed, *idx);
         // the original must reproduce in a fresh process before anything is reported
-        let first = eval_in_child(prop, &sc, Duration::from_secs(120));
+        let first = eval_in_child(prop, &sc, Duration::from_secs(20));
         let repro = matches!(&first, Ok((devs, _)) if devs.iter().any(|x| &x.sig == sig));
         if !repro {
             harness_errors.push(format!("deviation {sig} of run {idx} did not reproduce in a fresh process"));
@@ -800,6 +830,7 @@ pub fn check_main(prop: &str, thorough: bool, seed: u64) -> i32 {
             "runs": agg.runs,
             "nontrivial_runs": agg.nontrivial_runs,
             "runs_per_hour": if wall > 0.0 { (agg.runs as f64 / wall * 3600.0) as u64 } else { 0 },
+            "seeds": {"verif_seed": seed, "derivation": "run i of property P uses mix(VERIF_SEED, P, i): one derived seed per run", "derived_seeds_used": agg.runs, "derived_seeds_per_hour": if wall > 0.0 { (agg.runs as f64 / wall * 3600.0) as u64 } else { 0 }},
             "sim_guest_instructions": agg.guest_steps,
             "sim_events": agg.events,
             "simulated_time_note": "ax has no clock; logical time is counted as executed guest instructions and host/hook events",
@@ -812,6 +843,8 @@ pub fn check_main(prop: &str, thorough: bool, seed: u64) -> i32 {
             "components": {"real": real, "stub": stub},
             "determinism_audit": {"reruns_in_other_process": audit_reruns, "mismatches": audit_mismatch},
             "workers": workers,
+            "hangs_pinned_on_runs": HANGS.load(Ordering::SeqCst),
+            "chunks_skipped_after_repeated_hangs": SKIPPED_CHUNKS.load(Ordering::SeqCst),
             "harness_errors": harness_errors,
         },
         "assumptions": assumptions,
